@@ -561,112 +561,18 @@ func runPATHINDEX(c *Ctx) {
 				need := dU - k - 1 // li ≤ n + need
 				pos := P.InstrPos(ia)
 				what := fmt.Sprintf("%s.%s[%s%+d] in %s", pathDesc(nodeSym), f, pathDesc(liSym), k, ir.FuncName(fn))
-				kills := func(i ssa.Instruction) bool {
-					st, ok := i.(*ssa.Store)
-					if !ok {
-						return false
+				upperOK, lowerOK := pathIdxFacts(liSym, nodeSym, need, k, ia, deps)
+				if !upperOK || !lowerOK {
+					// the test may sit in the caller of an extracted helper
+					if ok, _ := viaCallers(c, fn, ia, func(i ssa.Instruction) bool {
+						st, ok := i.(*ssa.Store)
+						return ok && strings.HasSuffix(ir.Sym(st.Addr), ".linkIndex")
+					}, func(rw func(string) string, at ssa.Instruction) bool {
+						u, l := pathIdxFacts(rw(liSym), rw(nodeSym), need, k, at, nil)
+						return (upperOK || u) && (lowerOK || l)
+					}); ok {
+						upperOK, lowerOK = true, true
 					}
-					as := ir.Sym(st.Addr)
-					return strings.HasSuffix(as, ".linkIndex") || ir.MayClobber(as, deps)
-				}
-				upperOK := need >= 0
-				if !upperOK {
-					upperOK = ir.FlowFact(ia, func(fc ir.Fact) bool {
-						bin, ok := fc.Cond.(*ssa.BinOp)
-						if !ok {
-							return false
-						}
-						// normalise to  L REL len  with L = li + a
-						x, y, op := bin.X, bin.Y, bin.Op
-						if _, _, isLen := lenOfNodeSlice(x); isLen {
-							x, y = y, x
-							switch op {
-							case token.LSS:
-								op = token.GTR
-							case token.GTR:
-								op = token.LSS
-							case token.LEQ:
-								op = token.GEQ
-							case token.GEQ:
-								op = token.LEQ
-							}
-						}
-						l2, a, ok := liPlusK(x)
-						if !ok || ir.Sym(l2) != liSym {
-							return false
-						}
-						nd, dF, ok := lenOfNodeSlice(y)
-						if !ok || nd != nodeSym {
-							return false
-						}
-						if !fc.Truth {
-							switch op {
-							case token.LSS:
-								op = token.GEQ
-							case token.GEQ:
-								op = token.LSS
-							case token.LEQ:
-								op = token.GTR
-							case token.GTR:
-								op = token.LEQ
-							case token.EQL:
-								op = token.NEQ
-							case token.NEQ:
-								op = token.EQL
-							}
-						}
-						var bound int64
-						switch op {
-						case token.LSS: // li + a < n + dF
-							bound = dF - a - 1
-						case token.LEQ:
-							bound = dF - a
-						case token.NEQ: // li + a ≠ n + dF, and li ≤ n: excludes the top value only when dF - a == 0
-							if dF-a != 0 {
-								return false
-							}
-							bound = -1
-						default:
-							return false
-						}
-						return bound <= need
-					}, kills)
-				}
-				lowerOK := k >= 0
-				if !lowerOK {
-					lowerOK = ir.FlowFact(ia, func(fc ir.Fact) bool {
-						bin, ok := fc.Cond.(*ssa.BinOp)
-						if !ok {
-							return false
-						}
-						l2, a, ok := liPlusK(bin.X)
-						cst, isC := ir.ConstInt(bin.Y)
-						if !ok || !isC || ir.Sym(l2) != liSym {
-							return false
-						}
-						op := bin.Op
-						if !fc.Truth {
-							switch op {
-							case token.LEQ:
-								op = token.GTR
-							case token.LSS:
-								op = token.GEQ
-							case token.EQL:
-								op = token.NEQ
-							default:
-								return false
-							}
-						}
-						switch op {
-						case token.GTR: // li + a > cst  ⇒ li ≥ cst - a + 1
-							return cst-a+1 >= -k
-						case token.GEQ:
-							return cst-a >= -k
-						case token.NEQ: // li ≠ 0 with li ≥ 0
-							return cst-a == 0 && -k <= 1
-						}
-						return false
-					}, kills)
 				}
 				switch {
 				case upperOK && lowerOK && need >= 0 && k >= 0:
@@ -732,6 +638,19 @@ func runENTRYINV(c *Ctx) {
 				}
 			}
 		case *ssa.Call:
+			// a helper computing the position (lastEntryIndex(node)): every value it returns
+			if sc := ir.Callee(x.Call); sc != nil && sc.Blocks != nil && isOwn(P, sc) && sc.Signature.Results().Len() == 1 {
+				rets := ir.Returns(sc)
+				if len(rets) == 0 {
+					return false, "a helper that never returns"
+				}
+				for _, r := range rets {
+					if ok, why := okVal(r.Results[0], r, seen); !ok {
+						return false, why + " (returned by " + sc.Name() + ")"
+					}
+				}
+				return true, "position computed by " + sc.Name()
+			}
 			if sc := ir.Callee(x.Call); sc != nil && sc.String() == "sort.Search" {
 				if atMostALength(x.Call.Args[0], map[ssa.Value]bool{}) {
 					return true, "sort.Search over at most a length"
@@ -771,46 +690,15 @@ func runENTRYINV(c *Ctx) {
 					// position + k ≤ len(Key)  ⇔  position + k < len(Link)
 					liSym := ir.Sym(li)
 					tot := k0 + k
-					ok := ir.FlowFact(at, func(fc ir.Fact) bool {
-						bin, isB := fc.Cond.(*ssa.BinOp)
-						if !isB {
-							return false
-						}
-						l2, a, ok := liPlusK(bin.X)
-						if !ok || ir.Sym(l2) != liSym {
-							return false
-						}
-						_, dF, ok := lenOfNodeSlice(bin.Y)
-						if !ok {
-							return false
-						}
-						op := bin.Op
-						if !fc.Truth {
-							switch op {
-							case token.GEQ:
-								op = token.LSS
-							case token.GTR:
-								op = token.LEQ
-							case token.EQL:
-								op = token.NEQ
-							default:
-								return false
-							}
-						}
-						// li + a < n + dF  ⇒ li ≤ n + dF − a − 1 ; need li + tot ≤ n
-						switch op {
-						case token.LSS:
-							return dF-a-1+tot <= 0
-						case token.LEQ:
-							return dF-a+tot <= 0
-						case token.NEQ:
-							return dF-a == 0 && tot <= 1 // li ≠ n with li ≤ n ⇒ li ≤ n−1
-						}
-						return false
-					}, func(i ssa.Instruction) bool {
-						st, ok := i.(*ssa.Store)
-						return ok && strings.HasSuffix(ir.Sym(st.Addr), ".linkIndex")
-					})
+					ok := advanceOK(liSym, tot, at)
+					if !ok {
+						ok, _ = viaCallers(c, at.Parent(), at, func(i ssa.Instruction) bool {
+							st, isSt := i.(*ssa.Store)
+							return isSt && strings.HasSuffix(ir.Sym(st.Addr), ".linkIndex")
+						}, func(rw func(string) string, site ssa.Instruction) bool {
+							return advanceOK(rw(liSym), tot, site)
+						})
+					}
 					if ok {
 						return true, "the old position plus a constant, tested against the node's length"
 					}
@@ -852,4 +740,161 @@ func runENTRYINV(c *Ctx) {
 	if n == 0 {
 		c.AnchorMissing("stores of a path entry's position in the Cursor methods")
 	}
+}
+
+// pathIdxFacts: do the comparisons that hold at instruction `at` bound the position li (a path string) so that
+// li+k indexes within a list of the node nodeSym? need is the required bound li ≤ n + need (n = len(Key)).
+func pathIdxFacts(liSym, nodeSym string, need, k int64, at ssa.Instruction, deps []string) (upperOK, lowerOK bool) {
+	kills := func(i ssa.Instruction) bool {
+		st, ok := i.(*ssa.Store)
+		if !ok {
+			return false
+		}
+		as := ir.Sym(st.Addr)
+		return strings.HasSuffix(as, ".linkIndex") || (deps != nil && ir.MayClobber(as, deps))
+	}
+	upperOK = need >= 0
+	if !upperOK {
+		upperOK = ir.FlowFact(at, func(fc ir.Fact) bool {
+			bin, ok := fc.Cond.(*ssa.BinOp)
+			if !ok {
+				return false
+			}
+			// normalise to  L REL len  with L = li + a
+			x, y, op := bin.X, bin.Y, bin.Op
+			if _, _, isLen := lenOfNodeSlice(x); isLen {
+				x, y = y, x
+				switch op {
+				case token.LSS:
+					op = token.GTR
+				case token.GTR:
+					op = token.LSS
+				case token.LEQ:
+					op = token.GEQ
+				case token.GEQ:
+					op = token.LEQ
+				}
+			}
+			l2, a, ok := liPlusK(x)
+			if !ok || ir.Sym(l2) != liSym {
+				return false
+			}
+			nd, dF, ok := lenOfNodeSlice(y)
+			if !ok || nd != nodeSym {
+				return false
+			}
+			if !fc.Truth {
+				switch op {
+				case token.LSS:
+					op = token.GEQ
+				case token.GEQ:
+					op = token.LSS
+				case token.LEQ:
+					op = token.GTR
+				case token.GTR:
+					op = token.LEQ
+				case token.EQL:
+					op = token.NEQ
+				case token.NEQ:
+					op = token.EQL
+				}
+			}
+			var bound int64
+			switch op {
+			case token.LSS: // li + a < n + dF
+				bound = dF - a - 1
+			case token.LEQ:
+				bound = dF - a
+			case token.NEQ: // li + a ≠ n + dF, and li ≤ n: excludes the top value only when dF - a == 0
+				if dF-a != 0 {
+					return false
+				}
+				bound = -1
+			default:
+				return false
+			}
+			return bound <= need
+		}, kills)
+	}
+	lowerOK = k >= 0
+	if !lowerOK {
+		lowerOK = ir.FlowFact(at, func(fc ir.Fact) bool {
+			bin, ok := fc.Cond.(*ssa.BinOp)
+			if !ok {
+				return false
+			}
+			l2, a, ok := liPlusK(bin.X)
+			cst, isC := ir.ConstInt(bin.Y)
+			if !ok || !isC || ir.Sym(l2) != liSym {
+				return false
+			}
+			op := bin.Op
+			if !fc.Truth {
+				switch op {
+				case token.LEQ:
+					op = token.GTR
+				case token.LSS:
+					op = token.GEQ
+				case token.EQL:
+					op = token.NEQ
+				default:
+					return false
+				}
+			}
+			switch op {
+			case token.GTR: // li + a > cst  ⇒ li ≥ cst - a + 1
+				return cst-a+1 >= -k
+			case token.GEQ:
+				return cst-a >= -k
+			case token.NEQ: // li ≠ 0 with li ≥ 0
+				return cst-a == 0 && -k <= 1
+			}
+			return false
+		}, kills)
+	}
+	return
+}
+
+// advanceOK: at instruction `at`, position li (path string) advanced by tot is still at most len(Key):
+// some comparison li+a < len(F) on every path gives li ≤ n + δF − a − 1 ≤ n − tot.
+func advanceOK(liSym string, tot int64, at ssa.Instruction) bool {
+	return ir.FlowFact(at, func(fc ir.Fact) bool {
+		bin, isB := fc.Cond.(*ssa.BinOp)
+		if !isB {
+			return false
+		}
+		l2, a, ok := liPlusK(bin.X)
+		if !ok || ir.Sym(l2) != liSym {
+			return false
+		}
+		_, dF, ok := lenOfNodeSlice(bin.Y)
+		if !ok {
+			return false
+		}
+		op := bin.Op
+		if !fc.Truth {
+			switch op {
+			case token.GEQ:
+				op = token.LSS
+			case token.GTR:
+				op = token.LEQ
+			case token.EQL:
+				op = token.NEQ
+			default:
+				return false
+			}
+		}
+		switch op {
+		case token.LSS:
+			return dF-a-1+tot <= 0
+		case token.LEQ:
+			return dF-a+tot <= 0
+		case token.NEQ:
+			return dF-a == 0 && tot <= 1
+		}
+		return false
+	}, func(i ssa.Instruction) bool {
+		st, ok := i.(*ssa.Store)
+		return ok && strings.HasSuffix(ir.Sym(st.Addr), ".linkIndex")
+	})
 }
